@@ -12,7 +12,8 @@ CASE_TYPE = 'C06_case'
 CORR, PROPCHK = 'C06_corr', 'C06_prop'
 THEOREMS = ['C06_rollback_restores', 'C06_as_if_never_attempted', 'C06_savepoint_restores',
             'C06_savepoint_as_if_never_attempted', 'C06_no_state_left_in_memory', 'C06_clear_connection_is_the_code',
-            'C06_clear_is_the_code', 'C06_clear_inside_savepoint_does_nothing', 'C06_example']
+            'C06_clear_is_the_code', 'C06_clear_inside_savepoint_does_nothing',
+            'C06_savepoint_state_is_complete_in_the_code', 'C06_model_unit_of_work_is_in_the_snapshot', 'C06_example']
 RULE = ('(F) fault injection through the public before_cursor_execute event: for generated histories one transaction is '
         'chosen and a failure is raised at a statement boundary of it (quick: first, last and up to 4 random boundaries; '
         'thorough: every boundary); the application rolls back and continues; compared: every table right after the '
